@@ -142,19 +142,20 @@ theorem headOk_of_head {b : Builder} {k : Tree} {more : List Tree} (hk : k.value
 
 theorem run_comment (b : Builder) (text junk : StrSpan) (rest : List Token) (lexErr : Option Nat) :
     ∃ sp, b.run (.comment text junk :: rest) lexErr =
-      (b.emit b.env [.node (.comment text.text) []] sp).run rest lexErr := by
+      (b.emit b.env [.node (.comment (normalizeLineEnds text.text)) []] sp).run rest lexErr := by
   refine ⟨b.spans.add ⟨b.curPath ++ [b.cur.rkids.length], .comment⟩ text.span, ?_⟩
   simp only [Builder.run, Builder.step, Builder.comment, Builder.addLeaf, Builder.emit, List.reverse_cons,
     List.reverse_nil, List.nil_append, List.singleton_append]
 
 theorem run_pi (b : Builder) (target : StrSpan) (content : Option StrSpan) (junk : StrSpan) (rest : List Token)
-    (lexErr : Option Nat) :
+    (lexErr : Option Nat) (ht : isReservedPiTarget target.text = false) :
     ∃ sp, b.run (.pi target content junk :: rest) lexErr =
       (b.emit (b.env.internName target.text Env.noNamespace).1
-        [.node (.pi (b.env.internName target.text Env.noNamespace).2 (content.map fun c => c.text)) []] sp).run
+        [.node (.pi (b.env.internName target.text Env.noNamespace).2
+          (content.map fun c => normalizeLineEnds c.text)) []] sp).run
         rest lexErr := by
   refine ⟨(Builder.processingInstruction b target content).spans, ?_⟩
-  simp only [Builder.run, Builder.step, Builder.processingInstruction, Builder.addLeaf, Builder.emit,
+  simp only [Builder.run, Builder.step, ht, Bool.false_eq_true, if_false, Builder.processingInstruction, Builder.addLeaf, Builder.emit,
     List.reverse_cons, List.reverse_nil, List.nil_append, List.singleton_append]
 
 /-! ### Character data -/
